@@ -11,7 +11,7 @@ RUN_MODULE = "Spec.TTLMap Model.DecorSimple Run.C02"
 EXPLAIN = "explain"
 RULE = ("(simple) 1-25 calls of a function f(x, y=0) decorated with cache(ttl, condition) through the facade: argument tuples from a small "
         "alphabet in every call form, advances around ttl on a 1/16 s grid, scripted behaviour per execution in {fresh int, None, 0, '', [], "
-        "raise A, raise B}, conditions {all, not_none, bool callable, truthy non-bool callable, with_exceptions(A), only_exceptions(A)}, ttl "
+        "raise A, raise B, raise a subclass of A, raise CancelledError}, conditions {all, not_none, bool callable, truthy non-bool callable, with_exceptions(A), only_exceptions(A)}, ttl "
         "spelled as int / float / timedelta / '<n>s' or '1m' string / callable of the arguments / callable with result=; (iter) the same for "
         "cache.iterator over scripted async generators (items incl. falsy ones, optional raise at the end, optional virtual time passing "
         "between items); (ttl) ttl_to_seconds on component strings ('1d2h3m50s' style, spaces, upper case) and malformed strings. "
@@ -35,9 +35,9 @@ class ExcA1(ExcA):      # a proper subclass of the listed class: selected by wit
     pass
 
 
-EXC = {1: ExcA, 2: ExcB, 3: ExcA1}
+EXC = {1: ExcA, 2: ExcB, 3: ExcA1, 4: asyncio.CancelledError}   # 4: not an Exception at all - never selected, never stored
 CONDS = ["all", "not_none", "truthy", "nonbool", "with_exc", "only_exc"]
-SCRIPT = ["fresh", "fresh", "fresh", None, 0, "", [], "raiseA", "raiseB", "raiseA1", "v"]
+SCRIPT = ["fresh", "fresh", "fresh", None, 0, "", [], "raiseA", "raiseB", "raiseA1", "v", "cancel"]
 ARGS = [(1, 0), (1, 5), (2, 0), ("a", 0)]
 
 
@@ -107,7 +107,7 @@ def gen_cases(rng, tier):
         runs = []
         for _ in range(13):
             items = [rng.choice([1, 0, 2, "", "a", None, [], 7]) for _ in range(rng.randint(0, 4))]
-            runs.append({"items": items, "end": rng.choice([None, None, None, 1, 2, 3]),
+            runs.append({"items": items, "end": rng.choice([None, None, None, None, None, None, 1, 2, 3, 1, 2, 3, 4]),
                          "inrun": [rng.choice([0, 0, 0, 4, T]) if tier != "quick" or rng.random() < 0.15 else 0 for _ in items]})
         cases.append({"kind": "iter", "secs": secs, "spelling": rng.choice(["int", "timedelta", "str", "callable"]), "cond": rng.choice(CONDS), "calls": calls, "runs": runs})
     for _ in range(n // 2):
@@ -123,6 +123,13 @@ def gen_cases(rng, tier):
             s = "".join(rng.choice("0123456789dhmsx- .") for _ in range(rng.randint(0, 6)))
             cases.append({"kind": "ttl", "raw": s, "comps": None})
     return cases
+
+
+def _san(v):
+    """a value the scripts never produce (e.g. an exception object handed back as a result) is reported by its type name"""
+    if v is None or isinstance(v, (bool, int, str)) or (isinstance(v, list) and all(isinstance(x, int) for x in v)):
+        return v
+    return "<" + type(v).__name__ + ">"
 
 
 def _pyval(x, n):
@@ -160,6 +167,7 @@ def run_impl(case):
                 if s == "raiseA": raise ExcA()
                 if s == "raiseB": raise ExcB()
                 if s == "raiseA1": raise ExcA1()
+                if s == "cancel": raise asyncio.CancelledError()      # e.g. propagated from cancelled inner work
                 return _pyval(s, i)
             for adv, ai, form in case["calls"]:
                 if adv: await asyncio.sleep(adv * TICK)
@@ -170,10 +178,11 @@ def run_impl(case):
                     elif form == "kw": r = await f(x=x, y=y)
                     elif form == "mixed": r = await f(x, y=y)
                     else: r = await (f(x) if y == 0 else f(x, y))
-                    res = ["val", r]
+                    res = ["val", _san(r)]
                 except ExcA1: res = ["exc", 3]
                 except ExcA: res = ["exc", 1]
                 except ExcB: res = ["exc", 2]
+                except asyncio.CancelledError: res = ["exc", 4]
                 except Exception as e:  # noqa
                     res = ["exc", 99]
                 steps.append({"t": round((vclock.Clock.now - vclock.BASE) / TICK), "key": ai, "script": case["script"][before], "i": before,
@@ -196,10 +205,11 @@ def run_impl(case):
                 items, end = [], None
                 try:
                     async for it in g(ai):
-                        items.append(it)
+                        items.append(_san(it))
                 except ExcA1: end = 3
                 except ExcA: end = 1
                 except ExcB: end = 2
+                except asyncio.CancelledError: end = 4
                 except Exception as e:  # noqa
                     end = 99
                 steps.append({"t": t, "key": ai, "run": case["runs"][before], "res": [items, end], "executed": ex["n"] > before})
@@ -212,6 +222,7 @@ def _outcome(s, i):
     if s == "raiseA": return C("OExc", Z(1))
     if s == "raiseB": return C("OExc", Z(2))
     if s == "raiseA1": return C("OExc", Z(3))
+    if s == "cancel": return C("OExc", Z(4))
     return C("OVal", _val(_pyval(s, i)))
 
 
